@@ -14,7 +14,7 @@ TRUSTED = ["Spec.derived in lean/Summer/Spec/Derived.lean is the reading of the 
 ASSUMPTIONS = ["float rounding not modelled (1e-9 relative; 1e-6 for the adaptive solver's own tolerance-dependent trajectory)"]
 
 def payloads(tier, seed):
-    n = 60 if tier == "quick" else 1200
+    n = 90 if tier == "quick" else 1800
     return [{"seed": seed, "index": i} for i in range(n)]
 
 def direct_oracle(prog, I, py, out, payload):
@@ -85,7 +85,23 @@ def direct_oracle(prog, I, py, out, payload):
 
 def task(W, payload):
     r = random.Random(f"C08:{payload['seed']}:{payload['index']}")
-    prog = Gen(r, Opts(n_requests=8, max_strats=2, max_flows=5)).program()
+    prog = Gen(r, Opts(n_requests=8, max_strats=2, max_flows=6, negative_start_bias=0.4)).program()
+    # migration-like flows: one flow name with a copy s->d and a copy d->s between two different strata of the same compartment, and two
+    # requests that differ only in WHICH END carries the strata filter (outflow from s vs inflow into s)
+    comps = prog["meta"]["comps"]
+    by_name = {}
+    for n_, st in comps:
+        if st: by_name.setdefault(n_, []).append(st)
+    cands = [n_ for n_, sts in by_name.items() if len(sts) >= 2]
+    if cands and r.random() < 0.5:
+        n_ = r.choice(cands); s_, d_ = r.sample(by_name[n_], 2)
+        first_req = next((i for i, op in enumerate(prog["build"]) if op["op"] in ("request", "computed_value")), len(prog["build"]))
+        mig = [{"op": "flow", "kind": "transition", "name": "mig", "param": {"c": "1/8"}, "src": n_, "dst": n_, "src_strata": s_, "dst_strata": d_},
+               {"op": "flow", "kind": "transition", "name": "mig", "param": {"c": "1/16"}, "src": n_, "dst": n_, "src_strata": d_, "dst_strata": s_}]
+        prog["build"][first_req:first_req] = mig
+        prog["build"] += [{"op": "request", "name": "mig_out", "kind": "flow", "flow": "mig", "raw": True, "save": True, "src_strata": s_},
+                          {"op": "request", "name": "mig_in", "kind": "flow", "flow": "mig", "raw": True, "save": True, "dst_strata": s_}]
+        prog["meta"]["feat"]["migration_pair"] = 1
     S = fresh_session(W)
     out = mk_out(prog)
     if not S.build(prog["build"]):
